@@ -62,6 +62,25 @@ CLAIMED = {
         note="Subframe bodies bounded (block 4..7); Frame::count_bits's iterator sum is not extracted (closures) - its value is tied to written bits only through the component units.",
         technique=KANI + " + " + VERUS,
         design_ref="6 C08"),
+    "C09": dict(
+        category="proof",
+        text=("encode_subframe's selection logic is proved with the candidate generators replaced by callee contracts that return a "
+              "subframe of ARBITRARY size: the result is never larger than the verbatim subframe, is CONSTANT only for constant blocks, "
+              "uses no predictor below 64 samples and never calls a disabled generator (Kani, complete in all switches and sizes); "
+              "try_stereo_coding keeps the cheapest ENABLED combination and never exceeds the independent-channel size (Kani, sizes "
+              "symbolic); frame = header + subframes + < 8 padding bits + 16 (Verus frame_write)."),
+        note="Sizes are the components' own count_bits(), tied to written bits by C08; the per-frame bound then follows arithmetically (header equal, each subframe <= verbatim, side channel one bit wider only when that pair is cheaper).",
+        technique=KANI + " + " + VERUS,
+        design_ref="6 C09"),
+    "C14": dict(
+        category="proof",
+        text=("Sign-extending little-endian conversion for 1..4 bytes per sample against an independent spec (all byte values), its inverse, "
+              "the channel-specialised de-interleavers (1, 2 quick; 3, 8 thorough; dispatcher 2..8) on arbitrary stale destination "
+              "contents, and FrameBuf::fill_interleaved vs fill_le_bytes on differently dirty buffers: identical per-channel samples and "
+              "fill state; Context counters/MD5 input identical for both paths for any length (Verus context_fill)."),
+        note="Lengths bounded (3 samples for conversions, stride 34 for the 32-way unrolled de-interleavers, capacity 2..3 for the buffer equivalence); values complete.",
+        technique=KANI + " + " + VERUS,
+        design_ref="6 C14"),
     "C11": dict(
         category="proof",
         text=("Every sink operation of both in-memory sinks (write/write_msbs/write_lsbs for u8..u64, every n from 0 "
